@@ -105,16 +105,23 @@ def skeletons(max_compound, family, depth=3):
 # renderers
 
 class Ctx:
-    def __init__(self):
+    def __init__(self, cmp=False):
         self.k = 0
+        self.cmp = cmp          # render every test as a comparison (its value is computed by statements before the test)
+
+    def cond(self, lang):
+        v = "$" if lang == "php" else ""
+        if not self.cmp:
+            return v + "c"
+        return "c != false" if lang in ("java", "go") else f"{v}c > 0"
 
     def marker(self):
         self.k += 1
         return self.k
 
 
-def render_python(name, body, params=True):
-    ctx = Ctx()
+def render_python(name, body, params=True, cmp=False):
+    ctx = Ctx(cmp)
     lines = [f"def {name}({'c, l' if params else ''}):"] + _py(body, 1, ctx)
     return "\n".join(lines) + "\n"
 
@@ -133,13 +140,13 @@ def _py(nodes, ind, ctx):
         elif k == "raise":
             out.append(f"{pad}raise E")
         elif k in ("if", "if-else"):
-            out.append(f"{pad}if c:")
+            out.append(f"{pad}if {ctx.cond('python')}:")
             out += _py(n.bodies[0], ind + 1, ctx)
             if k == "if-else":
                 out.append(f"{pad}else:")
                 out += _py(n.bodies[1], ind + 1, ctx)
         elif k in ("while", "while-else"):
-            out.append(f"{pad}while c:")
+            out.append(f"{pad}while {ctx.cond('python')}:")
             out += _py(n.bodies[0], ind + 1, ctx)
             if k == "while-else":
                 out.append(f"{pad}else:")
@@ -183,10 +190,10 @@ def _py(nodes, ind, ctx):
     return out
 
 
-def render_c_family(name, body, lang, params=True):
+def render_c_family(name, body, lang, params=True, cmp=False):
     """JavaScript / Java / C / PHP / Go renderings of the C-family skeletons (method text only).
     params=False renders a parameterless method (c and l are then globals / static fields)."""
-    ctx = Ctx()
+    ctx = Ctx(cmp)
     lines = _cf(body, 1, ctx, lang)
     pad = "    "
     if lang == "javascript":
@@ -227,38 +234,38 @@ def _cf(nodes, ind, ctx, lang):
             else:
                 out.append(f"{pad}throw E;")
         elif k in ("if", "if-else"):
-            out.append(f"{pad}if {par(v + 'c')} {{")
+            out.append(f"{pad}if {par(ctx.cond(lang))} {{")
             out += _cf(n.bodies[0], ind + 1, ctx, lang)
             if k == "if-else":
                 out.append(f"{pad}}} else {{")
                 out += _cf(n.bodies[1], ind + 1, ctx, lang)
             out.append(f"{pad}}}")
         elif k == "while":
-            out.append(f"{pad}{'for' if lang == 'go' else 'while'} {par(v + 'c')} {{")
+            out.append(f"{pad}{'for' if lang == 'go' else 'while'} {par(ctx.cond(lang))} {{")
             out += _cf(n.bodies[0], ind + 1, ctx, lang)
             out.append(f"{pad}}}")
         elif k == "cfor":
             i = f"{v}i{ctx.marker()}"
             if lang == "go":
-                out.append(f"{pad}for {i} := 0; c; {i}++ {{")
+                out.append(f"{pad}for {i} := 0; {ctx.cond(lang)}; {i}++ {{")
             elif lang in ("java", "c"):
-                out.append(f"{pad}for (int {i} = 0; c; {i}++) {{")
+                out.append(f"{pad}for (int {i} = 0; {ctx.cond(lang)}; {i}++) {{")
             elif lang == "javascript":
-                out.append(f"{pad}for (let {i} = 0; c; {i}++) {{")
+                out.append(f"{pad}for (let {i} = 0; {ctx.cond(lang)}; {i}++) {{")
             else:
-                out.append(f"{pad}for ({i} = 0; {v}c; {i}++) {{")
+                out.append(f"{pad}for ({i} = 0; {ctx.cond(lang)}; {i}++) {{")
             out += _cf(n.bodies[0], ind + 1, ctx, lang)
             out.append(f"{pad}}}")
         elif k == "dowhile":
             if lang == "go":
                 out.append(f"{pad}for {{")
                 out += _cf(n.bodies[0], ind + 1, ctx, lang)
-                out.append(f"{pad}    if !c {{ break }}")
+                out.append(f"{pad}    if !({ctx.cond(lang)}) {{ break }}")
                 out.append(f"{pad}}}")
             else:
                 out.append(f"{pad}do {{")
                 out += _cf(n.bodies[0], ind + 1, ctx, lang)
-                out.append(f"{pad}}} while ({v}c);")
+                out.append(f"{pad}}} while ({ctx.cond(lang)});")
         elif k == "forin":
             e = f"{v}e{ctx.marker()}"
             if lang == "javascript":
@@ -270,7 +277,7 @@ def _cf(nodes, ind, ctx, lang):
             elif lang == "go":
                 out.append(f"{pad}for _, {e} := range l {{")
             else:  # C has no for-in: a plain while
-                out.append(f"{pad}while (c) {{")
+                out.append(f"{pad}while ({ctx.cond(lang)}) {{")
             out += _cf(n.bodies[0], ind + 1, ctx, lang)
             out.append(f"{pad}}}")
         elif k == "switch":
